@@ -309,11 +309,30 @@ Definition run_special (env : uenv) (impl name : string) (la : largs) (extras : 
   else if String.eqb impl "_frexp" then
     do w <- uwc env (opt_list (g "x")); Ok (PList [w; None])
   else if String.eqb impl "_power" then
-    match g "x1", g "x2", xget extras "p" with
-    | Some (A1 (SQ u)), Some (A1 (SNum _)), Some p => do r <- pow_units env u p; Ok (PAll (Some r))
-    | Some (A1 (SNum _)), Some (A1 (SQ u)), _ =>       (* __rpow__: exponent must be dimensionless *)
+    (* x1 ** x2 = PlainQuantity.__pow__.  extras: "p" = the exponent's value (in root units when it
+       is a Quantity), "exp_isarray" = the exponent's magnitude is an ndarray, "exp_many" = it has
+       more than one element *)
+    let scalar_path (u : uc) (e_dimless : bool) :=
+      match xget extras "p" with
+      | Some p =>
+          if e_dimless then do r <- pow_units env u p; Ok (PAll (Some r))
+          else if negb (is_mult env u) then Err EOffset else Err EDim
+      | None => Err EOther
+      end in
+    let array_path (u : uc) (e_dimless : bool) :=
+      (* array exponents are refused unless the base is dimensionless; then both are taken
+         in dimensionless units and the result is dimensionless *)
+      if qc_is (xget extras "exp_isarray") 1 then
+        if dimensionless env u then (if e_dimless then Ok (PAll (Some ∅)) else Err EDim)
+        else if qc_is (xget extras "exp_many") 1 then Err EDim
+        else scalar_path u e_dimless
+      else scalar_path u e_dimless in
+    match g "x1", g "x2" with
+    | Some (A1 (SQ u)), Some (A1 (SNum _)) => array_path u true
+    | Some (A1 (SQ u)), Some (A1 (SQ e)) => array_path u (dimensionless env e)
+    | Some (A1 (SNum _)), Some (A1 (SQ u)) =>       (* __rpow__: exponent must be dimensionless *)
         if dimensionless env u then Ok (PAll None) else Err EDim   (* other ** root magnitude: bare *)
-    | _, _, _ => Err EOther
+    | _, _ => Err EOther
     end
   else if String.eqb impl "_add" || String.eqb impl "_subtract" then
     do w <- uwc env (opt_list (g "x1") ++ opt_list (g "x2")); Ok (PAll w)
